@@ -653,14 +653,9 @@ impl MutableArchive {
             }
 
             // Read the file data
-            let file_data = match self.read_file(filename) {
-                Ok(data) => data,
-                Err(_) => {
-                    // Skip files we can't read
-                    log::warn!("Skipping file {filename} during compaction (read error)");
-                    continue;
-                }
-            };
+            // A file that cannot be read would be missing from the compacted archive:
+            // give up and leave the archive as it is
+            let file_data = self.read_file(filename)?;
 
             // Determine compression and encryption from block flags
             let compression = if block_entry.is_compressed() {
